@@ -27,7 +27,7 @@ func vhIsKeyNotFound(err error) bool {
 	return errors.As(err, &knf)
 }
 
-//vh:prop C02 C05 C09
+//vh:prop C02 C05 C09 C06
 //vh:param leaves 2 3
 //vh:param perleaf 3 4
 func VH_C02_MapStep() {
